@@ -412,7 +412,7 @@ structure MRes (σ : Type) where
   evs : List REv
   nread : Int
 
-/-- uv__udp_recvmmsg (154-221) after the recvmmsg call: returns nread (-1 on error) -/
+/-- uv__udp_recvmmsg (154-226) after the recvmmsg call: returns nread (-1 on error) -/
 def recvmmsgK {σ} (u : RecvUser σ) (a len : Nat) (s : σ) : KRecv × List RItem → MRes σ
   | (.err e, q') =>
     let args : CbArgs := ⟨if e = EAGAIN then 0 else -(e : Int), some ⟨a, 0, len⟩, 0, 0⟩
@@ -422,10 +422,9 @@ def recvmmsgK {σ} (u : RecvUser σ) (a len : Nat) (s : σ) : KRecv × List RIte
     ⟨u.cb s args, q', [.cb args], 0⟩
   | (.ok (d :: ds), q') =>
     let cl := chunkLoop u a (d :: ds) 0 s []
-    if u.recvSet cl.1 then
-      let args : CbArgs := ⟨0, some ⟨a, 0, len⟩, 0, FLAG_FREE⟩
-      ⟨u.cb cl.1 args, q', cl.2 ++ [.cb args], (d :: ds).length⟩
-    else ⟨cl.1, q', cl.2, (d :: ds).length⟩
+    -- the final callback goes through the recv_cb saved on entry (161-172, 215-218): also after a stop
+    let args : CbArgs := ⟨0, some ⟨a, 0, len⟩, 0, FLAG_FREE⟩
+    ⟨u.cb cl.1 args, q', cl.2 ++ [.cb args], (d :: ds).length⟩
 
 /-- uv__udp_recvmmsg (154-221): `chunks = buf->len / UV__UDP_DGRAM_MAXSIZE`, capped at 20 -/
 def recvmmsg {σ} (u : RecvUser σ) (a len : Nat) (s : σ) (q : List RItem) : MRes σ :=
